@@ -30,8 +30,9 @@ Pairs(A) == {<<a, b>> : a \in A, b \in A}
 Triples(A) == {<<a, b, c>> : a \in A, b \in A, c \in A}
 Singles(A) == {<<a>> : a \in A}
 
-CasesQuick == {Case("round_robin", <<x, y>>, 2) : x \in Pairs(Small), y \in Pairs(Small)}
-CasesThorough ==
+\* (operators with a parameter: TLC evaluates zero-arity constant definitions eagerly in every run, also in the observer)
+CasesQuick(u) == {Case("round_robin", <<x, y>>, 2) : x \in Pairs(Small), y \in Pairs(Small)}
+CasesThorough(u) ==
   {Case("round_robin", <<x, y>>, 2) : x \in Pairs(Full), y \in Pairs(Full)}
   \cup {Case(s, <<x, y, z>>, 2) : s \in {"weighted_round_robin", "ip_hash_consistent"}, x \in Singles(Full), y \in Singles(Full), z \in Singles(Full)}
   \cup {Case("least_connections", <<x, y>>, 1) : x \in Triples({"add3", "rm1", "st_iphc", "rm3", "list"}), y \in Triples({"add3", "rm1", "st_iphc", "rm3", "list"})}
